@@ -4,7 +4,7 @@ owner; member-count quorum with a faked member count.  Oracle: the quorum arithm
 from streams.cluster import T0, hx
 
 HEADER = 3
-REQUIRED_SHAPES = ["connection_served_before_quorum_was_lost", "every_command_refused_below_member_quorum", "backup_without_copy", "write_quorum_met_with_unreachable", "write_quorum_unmet", "read_quorum_unmet", "read_quorum_met",
+REQUIRED_SHAPES = ["operation_inside_routing_update_after_leave", "connection_served_before_quorum_was_lost", "every_command_refused_below_member_quorum", "backup_without_copy", "write_quorum_met_with_unreachable", "write_quorum_unmet", "read_quorum_unmet", "read_quorum_met",
                    "member_quorum_refused"]
 
 
@@ -53,6 +53,19 @@ class Oracle:
                 self.lowq.add(int(a[0]))
             else:
                 self.lowq.discard(int(a[0]))
+            return None
+        if name == "c.inter":
+            sep = a.index("--")
+            inner, st = a[sep + 1:], reply.split("inner=")[1]
+            if st == "-" or not getattr(self, "window", None):
+                return None
+            need, alive = self.window
+            self.hit("operation_inside_routing_update_after_leave")
+            want = "wq" if inner[0] == "c.put" else "rq"
+            res = st.split(":", 1)[1] if ":" in st else st
+            if res != want:
+                return ("%s through the coordinator while it was updating the routing table after a backup owner left, quorum %d with %d members alive, "
+                        "answered %s (expected the %s quorum error): a member was counted twice" % (inner[0], need, alive, res[:40], "write" if want == "wq" else "read"))
             return None
         R, W, RQ = int(self.cfg.get("r", 1)), int(self.cfg.get("w", 1)), int(self.cfg.get("rq", 1))
         if name == "c.rawerr":
@@ -108,6 +121,9 @@ class Gen:
         self.rng = rng
 
     def episode(self, orc, nops):
+        if getattr(self, "ep", 0) % 6 == 4:
+            yield from self.during_update(orc)
+            return
         r = self.rng
         R = r.choice([1, 2, 2, 3, 3])
         W = r.randint(1, R)
@@ -168,3 +184,32 @@ class Gen:
             yield "c.nummembers %d %d" % (owner, n)
             yield "c.get raw %d dm %s" % (owner, key)
         _ = key2
+
+    def during_update(self, orc):
+        """directed: three members, three copies, W = RQ = 3.  A backup owner leaves gracefully; while the coordinator (the
+        oldest member, m0) is between computing the new table and pushing it, a Put / Get of a key it owns goes through it.
+        Two members are alive: a write cannot be stored three times, a read cannot be answered three times."""
+        r = self.rng
+        yield "watchdog 120s"
+        yield "clock %d" % T0
+        yield "c.new n=3 r=3 w=3 rq=3 parts=7 tsize=4096"
+        cand = None
+        for i in range(40):
+            k = hx(b"u%d" % i)
+            rep = yield "c.own dm %s" % k
+            p, b = rep.split("pick=")[1].split()[0].split("/")
+            if p.split(",")[-1] == "0" and b != "-" and len(b.split(",")) == 2:
+                cand = (k, [int(x) for x in b.split(",")])
+                break
+        if cand is None:
+            return
+        key, baks = cand
+        yield "c.put emb 0 dm %s %s" % (key, hx(b"three-copies"))
+        yield "c.get emb 0 dm %s" % key
+        inner = r.choice(["c.put emb 0 dm %s %s" % (key, hx(b"two-copies")), "c.get emb 0 dm %s" % key])
+        # the leaving member stops answering first (its listener is closed), so that it cannot serve the operation below
+        # while it is still shutting down; then it leaves
+        yield "c.unreach %d" % baks[0]
+        orc.window = (3, 2)
+        yield "c.inter routing.computed c.stopconv %d -- %s" % (baks[0], inner)
+        orc.window = None
